@@ -55,7 +55,6 @@ size_t verif_b_size;
 /* lookup: B queried exactly once, inside its domain (storage of 4^k cells), at the curve position */
 size_t verif_expected_idx;  /* ghost: set by the harness to hilbert_calculate_index(c, sizes) */
 #define CONTRACT_hilbert_at(self, c) \
-  __CPROVER_requires(__CPROVER_is_fresh(self, sizeof(*self))) \
   __CPROVER_requires(HILBERT_SIZES_OK((self)->m_sizes) && HILBERT_C_OK(c, (self)->m_sizes)) \
   __CPROVER_requires(verif_b_size == HSIDE * HSIDE && verif_b_calls == 0) \
   __CPROVER_ensures(verif_b_calls == 1) \
